@@ -197,6 +197,10 @@ ANY = [("Execute", {}), ("ExecuteConcurrent", {}), ("ExecuteMixModel", {}), ("Ex
        ("ExecuteWithStopTagDirect", {})]
 
 
+SEQT = {"Execute", "ExecuteWithStopTagDirect", "ExecuteSelectedRules", "ExecuteSelectedRulesWithControl",
+        "ExecuteSelectedRulesWithControlAndStopTag", "ExecuteSelectedRulesWithControlAsGivenSortedName"}
+
+
 def mkcall(m, extra, b=True):
     c = {"method": m, "via": "direct", "b": b, "names": [], "n": 0, "m": 0, "dag": [], "beh": {}, "tagset": []}
     c.update(extra)
@@ -267,7 +271,9 @@ def check_c15(run):
                 s["rules"] = with_cf(s["rules"])
             elif x < 0.4:
                 s["rules"] = with_cf(s["rules"], "CW")
-            elif x < 0.55:
+            elif x < 0.55 and all(c["method"] in SEQT for c in s["calls"]):
+                # only where rules run one at a time: two executions writing the caller's stop tag at once would be the
+                # caller's own data race, not gengine's
                 s["rules"] = with_cf(s["rules"], "T")
             elif rng.random() < 0.3 and not any(c["method"] == "ExecuteDAGModel" for c in s["calls"]):
                 # rules without any assignment statement: their locals are bound by forRange only
@@ -286,7 +292,7 @@ def check_c15(run):
                                ("ExecuteSelectedRulesWithControlAndStopTag", {"names": ["r3", "r2", "r1"]}),
                                ("ExecuteMixModelWithStopTagDirect", {}), ("ExecuteNSortMConcurrent", {"n": 2, "m": 1})])
         rules = rules_of(rec)
-        if rng.random() < 0.6:
+        if rng.random() < 0.6 and m in SEQT:
             rules = with_cf(rules, "T")
         sessions.append({"id": sid, "kind": "locals", "target": rng.choice(["engine", "pool"]), "gated": rng.random() < 0.5, "parallel": False,
                          "rules": rules, "calls": [mkcall(m, extra, rng.random() < 0.5) for _ in range(rng.randint(2, 3))]})
